@@ -26,7 +26,7 @@ RULE = ("one run = one seeded (schema, value) encoded by the independent foreign
         "block layout (any partition of each array/map, each block in positive- or negative-count+"
         "byte-size form); evaluations = decode attempts: fault-free read and skip, cut(k) for EVERY k "
         "(encodings > 2 KiB quick / 16 KiB thorough: first 512 B, last 256 B and a stride) in both modes, "
-        "bad_index at EVERY union/enum index site (more than 48 quick / 512 thorough sites: first, last and a seeded sample) x 8 out-of-range values (union: read "
+        "bad_index at EVERY union/enum index site (more than 48 quick / 512 thorough sites: first, last and a seeded sample) x 12 out-of-range values (8 fixed + 4 seeded of the form 2^k + valid index) (union: read "
         "and skip mode; enum: read mode). non-trivial = the encoding is non-empty; distinct = faults "
         "counted over distinct (schema, encoding) digests")
 ASSUMPTIONS = [
@@ -51,8 +51,16 @@ def setup():
     env.load()
 
 
-def _bad_values(n):
-    return [-1, -n, -n - 1, -(1 << 63), n, n + 1, 1 << 31, (1 << 63) - 1]
+def _bad_values(n, ch=None):
+    vals = [-1, -n, -n - 1, -(1 << 63), n, n + 1, 1 << 31, (1 << 63) - 1]
+    if ch is not None:
+        # values that alias to a VALID index if the varint is truncated / wrapped at some width:
+        # 2^k + j for an in-range j, k on and between the byte boundaries of the varint
+        for _ in range(3):
+            k = ch.pick([7, 8, 14, 16, 21, 28, 31, 32, 34, 35, 40, 42, 49, 53, 56, 62])
+            vals.append((1 << k) + ch.draw(n))
+        vals.append(-((1 << ch.pick([32, 34, 40, 62])) + ch.draw(n)) - 1)
+    return [v for v in vals if not 0 <= v < n]
 
 
 def _cuts(ch, L, tier):
@@ -213,7 +221,7 @@ def run_one(ch, ctx):
                 ctx.probe("index_depth_ge2")
             if mode == "skip":
                 ctx.probe("skip_mode_index")
-            for bv in _bad_values(site["n"]):
+            for bv in _bad_values(site["n"], ch):
                 forged = data[:site["off"]] + refavro.zz_any(bv) + data[site["off"] + site["len"]:]
                 ctx.probe("bad_index_negative" if bv < 0 else "bad_index_high")
                 fo = ReadOnlySeq(forged)
